@@ -95,7 +95,11 @@ class Gen:
                 attrsets[(slot, fam, nhk)] = self.attr_choice(limit, 4 if ap else 0, fam, nhk) if not big else (65001, rng.choice([0, 3]), 0, 0)
             asn, ncomm, med, xlen = attrsets[(slot, fam, nhk)]
             paths.append(dict(fam=fam, idx=idx, plen=plen, pid=pid, kind=kind, asn=asn, ncomm=ncomm, med=med, nhk=nhk, xlen=xlen, nhi=nhi))
-        return dict(ext=ext, ap=ap, limit=limit, paths=paths, big=big)
+        # the session's ADD-PATH mode as negotiated: both directions or one only. Path identifiers are on the wire (and tell
+        # routes of one prefix apart) exactly when the SEND direction is on; c["ap"] says that, apmode is what the session has:
+        # 0 none, 1 both, 2 send only, 3 receive only
+        apmode = rng.choice([1, 1, 2]) if ap else rng.choice([0, 0, 3])
+        return dict(ext=ext, ap=ap, apmode=apmode, limit=limit, paths=paths, big=big)
 
     def model_line(self, c):
         ps = []
@@ -121,7 +125,7 @@ class Gen:
 def impl_line(c):
     ps = " ".join("(%d %d %d %d %s %d %d %d %d %d %d)" % (p["fam"], p["idx"], p["plen"], p["pid"], p["kind"], p["asn"], p["ncomm"], p["med"], p["nhk"], p["xlen"], p.get("nhi", 0))
                   for p in c["paths"])
-    return "pack %d %d (%s)" % (c["ext"], c["ap"], ps)
+    return "pack %d %d (%s)" % (c["ext"], c.get("apmode", c["ap"]), ps)
 
 
 def parse_sx(s):
